@@ -27,11 +27,15 @@ class C10(Prop):
     id = "C10"
     title = "Downlink NAS messages from a conformant AMF are recovered exactly"
     lean_module = "Stgutg.Props.C10"
-    extra_modules = ["Stgutg.Props.Glue.tglib_NASDecode", "Stgutg.Props.Glue.tglib_GetNasPdu"]
-    gen = ["tables", "procs"]
-    theorems = ["Stgutg.Props.GluePinned." + t for t in [
-        # the glue functions this property depends on are still the text the models were written from (gen procs)
-        "tglib_NASDecode", "tglib_GetNasPdu"]] + [
+    extra_modules = ["Stgutg.Proofs.GenTieNas", "Stgutg.Gen.PureSelftest", "Stgutg.Gen.PureSelftestRich"]
+    gen = ["tables", "pure-count", "pure-selftest", "pure-nasprot"]
+    theorems = [
+        # tie by translation: the NAS protection functions regenerated from security.go / packet.go / decode.go ARE the hand models
+        "Stgutg.Proofs.GenTie.Nas.NASDecode_eq",
+        "Stgutg.Proofs.GenTie.Nas.NASDecode_nilable_eq",
+        "Stgutg.Proofs.GenTie.Nas.GetNasPdu_eq",
+        "Stgutg.Proofs.GenTie.Nas.GetNasPdu_nil_msg",
+        "Stgutg.Proofs.GenTie.Nas.NASDecode_nil_ue",
         "Stgutg.Props.C10.step_recovers",
         "Stgutg.Props.C10.count_estimate",
         "Stgutg.Props.C10.history_recovers",
@@ -57,7 +61,8 @@ class C10(Prop):
             "COUNT per step. A 4% stream of truncated/random/headerless inputs, absent NAS-PDU IE, nil payload, NIA0 and "
             "unsupported ids is compared with the model only. non-trivial = accepted history with at least one protected "
             "message; distinct by op line")
-    trusted_base = ["crypto/aes, cipher.NewCTR, github.com/aead/cmac are parameters of the theorems (Prims); the CTR primitive is "
+    trusted_base = ["TIE BY TRANSLATION of the NAS protection layer (gen pure-nasprot, harness/cmd/gen/pure*.go incl. pure_nas.go -> lean/Stgutg/Gen/PureNasProt.lean, regenerated from the source text on every run): tglib.NASEncode, tglib.NASDecode, tglib.EncodeNasPduWithSecurity, tglib.GetNasPdu, nas.NewMessage, nas.GetSecurityHeaderType, with the methods of security.Count taken from Gen/PureCount.lean. Theorems Proofs.GenTie.Nas.NASDecode_eq / NASDecode_nilable_eq (for EVERY UE context, header type and octets incl. nil: generated = Model.NasProtect.nasDecode(Nilable), state and outcome, the decoded message = the plain decoder applied to the model's octets) and GetNasPdu_eq (every IE list in which an IE with id NAS-PDU carries a NAS-PDU), GetNasPdu_nil_msg, NASDecode_nil_ue. Trusted here instead of sampling: the extended grammar of the translator (described at the top of harness/cmd/gen/pure.go): *RanUeContext as state that is returned with every outcome incl. error and panic; pointers as Option with nil guards; structs trimmed to the fields the group selects (a struct handed to a library call keeps all its plain fields, the rest is one opaque component); library calls (msg.PlainNasEncode, msg.PlainNasDecode, security.NASEncrypt, security.NASMacCalculate, reflect.DeepEqual) as fields of the record Lib, ASSUMED to be functions of the VALUES of their operands with the declared effects only (NASEncrypt: payload overwritten IN PLACE = a rebinding of the payload variable, accepted only because the translator's alias classes show that no other live variable can share its storage; PlainNasDecode: receiver replaced, octets read only; every returned slice is fresh; PlainNasEncode returns non-nil octets when it returns no error); the tie instantiates Lib with the hand model's own parameters (Prims through Model.NasAlg.nasEncrypt/nasMac; ARBITRARY plain encoder / decoder / DeepEqual; PlainNasDecode panics on no octets). NOT described by the tie, as by the hand model: what NASDecode / GetNasPdu leave in the caller's octets (they decipher in place inside the received NGAP message), messages printed, nil-ness of returned slices. x[a:b] is accepted only where the next statement forces b <= len(x) (payload[0:6]; payload[6]), see checkRich in pure_nas.go; the extended grammar and its runtime are checked against the Go compiler on every run: gen pure-selftest also translates harness/cmd/gen/pureselftest/rich.go (every new construct, with stand-in library functions transcribed to Lean) and writes the outcomes of EXECUTING the compiled functions beside the translation (Gen/PureSelftestRich.lean: 549 calls, 146 of them panics, each with the object behind the pointer parameter as it is when the call ends or panics, incl. a slice left half overwritten by a failing in-place call, as kernel-checked equalities)",
+                    "crypto/aes, cipher.NewCTR, github.com/aead/cmac are parameters of the theorems (Prims); the CTR primitive is "
                     "assumed to be a keystream cipher (stated as a hypothesis, shown satisfiable); Crypto/Aes.lean is comparator only",
                     "the plain NAS codec is outside the model: the model returns the octets handed to PlainNasDecode (C08 covers the codec)",
                     "the reference sender of the harness uses security.NASEncrypt/NASMacCalculate (tied to the standard by C07); "
